@@ -29,6 +29,9 @@ type c06Desc struct {
 	// ShutdownReport the healthy extensions of the failed generation report an exit error when they are shut down
 	After          string `json:"after,omitempty"`
 	ShutdownReport bool   `json:"shutdown_report,omitempty"`
+	// RefusedReport: a healthy extension posts an init error report when it is no longer allowed to (403) before
+	// the fault happens: a refused call must not be taken for the first fault
+	RefusedReport bool `json:"refused_report,omitempty"`
 	HookDelay map[string]int `json:"hook_delay_ms,omitempty"`
 }
 
@@ -52,6 +55,9 @@ func (d c06Desc) id() string {
 	}
 	if d.After != "" {
 		s += fmt.Sprintf("/then-%s-sr%v", d.After, d.ShutdownReport)
+	}
+	if d.RefusedReport {
+		s += "/refused-report"
 	}
 	return s
 }
@@ -123,6 +129,16 @@ func genC06(tier string, seed int64) []Case {
 					add(d)
 				}
 			}
+		}
+	}
+	// a refused error report (403) precedes the real fault
+	for _, nExt := range []int{1, 2} {
+		for _, ex := range c06Exits {
+			add(c06Desc{Who: "rt", Fault: "idle", Exit: ex, NExt: nExt, Timing: "early", RtResp: "withheld", RefusedReport: true})
+			add(c06Desc{Who: "rt", Fault: "idle", Exit: ex, NExt: nExt, Timing: "early", RtResp: "withheld", RefusedReport: true, After: "rtcrash"})
+			// ... and during initialisation: the extension is already parked in next when it reports, the runtime dies before its first next
+			add(c06Desc{Who: "rt", Fault: "beforeNext", Exit: ex, NExt: nExt, Timing: "early", RtResp: "withheld", RefusedReport: true})
+			add(c06Desc{Who: "rt", Fault: "beforeNext", Exit: ex, NExt: nExt, Timing: "late", RtResp: "withheld", RefusedReport: true})
 		}
 	}
 	if tier == "thorough" {
@@ -200,6 +216,8 @@ func runC06(c *Ctx, d c06Desc) {
 	rtResponded := make(chan struct{})
 	var rtRespOnce sync.Once
 	var afterPhase int32
+	refusedDone := make(chan struct{})
+	var refusedOnce sync.Once
 	faultFor := func(who string) (string, vh.Exit) {
 		if d.Who == who {
 			return d.Fault, d.Exit
@@ -235,6 +253,15 @@ func runC06(c *Ctx, d c06Desc) {
 		o.BeforeFirstNext = func(p *vh.Proc, pt *vh.Party) *vh.Exit {
 			switch f {
 			case "beforeNext":
+				if d.RefusedReport {
+					// die only after the (refused) report of the healthy extension has been made
+					select {
+					case <-refusedDone:
+					case <-p.Ctx.Done():
+						return nil
+					case <-time.After(5 * time.Second):
+					}
+				}
 				return &ex
 			case "afterInitError":
 				pt.InitError(initErrBody, map[string]string{"Lambda-Runtime-Function-Error-Type": "Runtime.BadInit"})
@@ -311,7 +338,34 @@ func runC06(c *Ctx, d c06Desc) {
 		switch f {
 		case "":
 			o := healthy
-			if d.ShutdownReport {
+			if d.RefusedReport && d.Fault == "beforeNext" {
+				o.AfterRegister = func(p *vh.Proc, pt *vh.Party, reg *vh.Resp) *vh.Exit {
+					id, name := pt.ID(), base
+					go func() {
+						dl := time.Now().Add(4 * time.Second)
+						for time.Now().Before(dl) && w.E.ExtState(name) != "Ready" {
+							time.Sleep(200 * time.Microsecond)
+						}
+						p2 := vh.NewParty(pt.Src+"#2", w.E.Addr, w.E.Log, p.Ctx)
+						r := p2.ExtInitError(id, "Extension.TooLateToSay")
+						if r.Status != 0 { // 0: the sender was killed before it got an answer
+							c.Check(r.Status == 403, "late_init_error_refused", fmt.Sprintf("C06/late-init-error/%d", r.Status), "an init error report of an extension that is already parked in next was not refused", nil)
+						}
+						refusedOnce.Do(func() { close(refusedDone) })
+					}()
+					return nil
+				}
+			} else if d.RefusedReport {
+				o.OnEvent = func(p *vh.Proc, pt *vh.Party, n int, ev *vh.Resp) *vh.Exit {
+					if n == 0 && parseExtEvent(ev.Body).EventType == "INVOKE" {
+						r := pt.ExtInitError(pt.ID(), "Extension.TooLateToSay")
+						if r.Status != 0 {
+							c.Check(r.Status == 403, "late_init_error_refused", fmt.Sprintf("C06/late-init-error/%d", r.Status), "an init error report of an extension that is already running was not refused", nil)
+						}
+					}
+					return nil
+				}
+			} else if d.ShutdownReport {
 				// a healthy extension of the failing generation: when shut down it reports an exit error and leaves
 				o.OnEvent = func(p *vh.Proc, pt *vh.Party, n int, ev *vh.Resp) *vh.Exit {
 					if parseExtEvent(ev.Body).EventType == "SHUTDOWN" {
